@@ -52,7 +52,9 @@ func (fr *Frame) doCall(call *ssa.CallCommon, instr *ssa.Call, pos token.Pos) Va
 		ord := fr.callOrd[short]
 		fr.countCall(short)
 		fr.curQual = calleeQual(key)
-		fr.countCall(fr.curQual)
+		if fr.curQual != short {
+			fr.countCall(fr.curQual) // a package-level function has no qualified name of its own: count it once
+		}
 		fr.siteClauses(short, ord, "before", args, nil, Val{}, pos)
 		fr.snapshotPreCall()
 		var r Val
@@ -116,7 +118,9 @@ func (fr *Frame) callFunc(f *ssa.Function, binds []Val, args []Val, resT types.T
 	ord := fr.callOrd[short]
 	fr.countCall(short)
 	fr.curQual = calleeQual(name)
-	fr.countCall(fr.curQual)
+	if fr.curQual != short {
+		fr.countCall(fr.curQual) // a package-level function has no qualified name of its own: count it once
+	}
 	qual := fr.curQual
 	fr.siteClauses(short, ord, "before", args, f, Val{}, pos)
 	fr.snapshotPreCall()
